@@ -90,7 +90,7 @@ def run(chk, which="C13"):
     # (-O0 builds: the compiler may not fold an identity operation such as x * 1, which would quiet a signalling NaN)
     flav = ["G_trap", "L_plain", "G_O0"] if tier == "quick" else ["G_trap", "L_plain", "G_plain", "Lub_trap", "G_O0", "L_O0"]
     builds = [(rep, fl) for rep in REPS for fl in flav]
-    core.reach(chk, emit_tu("double", dict(list(units.items())[:6]), extra[:6]), [["layout"], ["ops", 60, 1], ["rt", 0, 2000, 1, 1, 1]])
+    core.reach(chk, emit_tu("double", units, extra[:6]), [["layout"], ["ops", 60, 1], ["rt", 0, 2000, 1, 1, 1]])
 
     def do_build(job):
         rep, fl = job
